@@ -10,7 +10,7 @@
    limit (overflow series) is C08's subject and is not modelled: the statements assume fewer distinct attribute sets per
    stream than kAggregationCardinalityLimit - 1.  Defects of the code are reproduced, not repaired (F13, F14).
    Definitions only, no proofs. *)
-From V Require Export Base.Bytes Gen.Consts.
+From V Require Export Base.Bytes.
 Local Open Scope Z_scope.
 
 Definition is_nil {A} (l : list A) : bool := match l with [] => true | _ => false end.
